@@ -296,8 +296,14 @@ func runA(raw json.RawMessage) *core.Violation {
 	dirty := false
 	t0 := time.Now()
 	defer func() {
-		if ids := fx.LeakedMutexes(20 * time.Millisecond); w.anyDead && len(ids) > 0 {
-			fx.ForceUnlock(ids) // after the verdict: lets the handlers of this case end so the teamserver can be reused
+		if w.anyDead && !dirty {
+			var addrs []string
+			for _, m := range append(append([]*mclient(nil), w.clients...), w.ghosts...) {
+				if m.dead != "" || m.stale {
+					addrs = append(addrs, m.c.Local)
+				}
+			}
+			fx.PurgeDead(addrs)
 		}
 		t1 := time.Now()
 		fx.Release(dirty)
